@@ -201,7 +201,7 @@ def main(tier):
         run.proof_ok = False
         run.proof_notes.append('harness verifapi does not build against this tree: ' + b['verifapi'][1][-600:])
         return run.finish()
-    n = 300 if tier == 'quick' else 6000
+    n = 400 if tier == 'quick' else 6000
     h = listcorr.Harness()
     try:
         shard, k = 120, 0
